@@ -253,6 +253,155 @@ def _worker(payload):
     return asyncio.run(main())
 
 
+def _e2e_worker(payload):
+    """
+    two real DBStorage instances on one SQLite file (two worker processes sharing a database), each with its real
+    NotifyClient, joined by the real NotifyServer.handle_notify over in-memory streams with chunked delivery; a
+    subscriber on worker 2 must be pushed what worker 1 accepts (and vice versa), once, and nobody gets an echo
+    """
+    chunkings, seed = payload
+    from nostr_relay import notifier, web
+    from nostr_relay.rate_limiter import NullRateLimiter
+    from .. import storedrv as D
+    from ..universe import Universe
+    from .storefam import E
+    import falcon
+    import json as _json
+
+    uni = Universe([E("a", "A", 1, 10, [["t", "x"]]), E("b", "A", 1, 20, [["t", "x"]]), E("c", "B", 1, 30, [["t", "x"]])])
+    K = 4
+    sizes = symbol_bytes(K)
+
+    async def one(chunks):
+        with C.Scratch() as d:
+            wire_up = {1: bytearray(), 2: bytearray()}
+            wire_down = {1: bytearray(), 2: bytearray()}
+            reader_s = {w: asyncio.StreamReader() for w in (1, 2)}
+            reader_c = {w: asyncio.StreamReader() for w in (1, 2)}
+            order = []
+            orig_open, orig_sleep = asyncio.open_connection, asyncio.sleep
+
+            async def fake_open(address, port, *a, **k):
+                w = len(order) + 1
+                order.append(w)
+                return reader_c[w], FakeWriter(wire_up[w].extend, ("client", w))
+
+            async def fast_sleep(delay, *a, **k):
+                return await orig_sleep(0 if delay == 2 else delay)
+
+            asyncio.open_connection = fake_open
+            asyncio.sleep = fast_sleep
+            log = []
+            try:
+                sts = {}
+                for w in (1, 2):
+                    sts[w] = await D.open_storage("sql", d, num_concurrent_adds=1)
+                    await orig_sleep(0.01)
+                server = notifier.NotifyServer()
+                server.log = _Quiet()
+                tasks = [asyncio.create_task(server.handle_notify(reader_s[w], FakeWriter(wire_down[w].extend, ("peer", w)))) for w in (1, 2)]
+                for w in (1, 2):
+                    orig_get = sts[w].get_event
+
+                    async def get_event(hexid, w=w, orig_get=orig_get):
+                        log.append(("Lookup", w, hexid))
+                        return await orig_get(hexid)
+
+                    sts[w].get_event = get_event
+                frames = {1: [], 2: []}
+                inbox = {w: asyncio.Queue() for w in (1, 2)}
+
+                def mk(w):
+                    async def recv():
+                        x = await inbox[w].get()
+                        if x is None:
+                            raise falcon.WebSocketDisconnected()
+                        return x
+
+                    async def send(text):
+                        frames[w].append(text)
+                        m = _json.loads(text)
+                        if m[0] == "EVENT":
+                            log.append(("Push", w, m[2]["id"]))
+
+                    async def close(code=1000):
+                        pass
+                    return recv, send, close
+
+                handlers = []
+                for w in (1, 2):
+                    r, sn, cl = mk(w)
+                    handlers.append(asyncio.create_task(web.start_client(sts[w], sn, r, cl, _Quiet(), rate_limiter=NullRateLimiter(), remote_addr="10.0.0.%d" % w)))
+                    inbox[w].put_nowait(_json.dumps(["REQ", "live", {"kinds": [1]}]))
+
+                async def settle(n=60):
+                    for _ in range(n):
+                        await orig_sleep(0.001)
+
+                await settle()
+                trace = []
+
+                def flush():
+                    idsym = {uni.conc[s]["id"]: s for s in uni.order}
+                    for kind, w, hexid in log:
+                        if kind == "Lookup":
+                            trace.append({"a": "Lookup", "w": w, "chunk": [[idsym[hexid], k + 1] for k in range(K)] if hexid in idsym
+                                          else [["?" + hexid[:10], len(hexid) // 2]]})
+                        else:
+                            trace.append({"a": "Push", "w": w, "i": idsym.get(hexid, "?")})
+                    del log[:]
+
+                plan = [(1, "a"), (1, "b"), (2, "c")]
+                ci = 0
+                for w, sym in plan:
+                    await sts[w].add_event(D._clone(uni.conc[sym]))
+                    trace.append({"a": "Announce", "w": w, "i": sym})
+                    await settle(10)
+                    # deliver what is in flight in the chosen chunk sizes, up then down
+                    for wire, rd in ((wire_up, reader_s), (wire_down, reader_c)):
+                        for x in (1, 2):
+                            while wire[x]:
+                                n = chunks[ci % len(chunks)]
+                                ci += 1
+                                rd[x].feed_data(bytes(wire[x][:n]))
+                                del wire[x][:n]
+                                await settle(6)
+                    await settle(30)
+                    flush()
+                # whatever was written late is delivered too (coalesced) before the run is judged
+                for _ in range(5):
+                    for wire, rd in ((wire_up, reader_s), (wire_down, reader_c)):
+                        for x in (1, 2):
+                            if wire[x]:
+                                rd[x].feed_data(bytes(wire[x]))
+                                wire[x].clear()
+                    await settle(40)
+                    flush()
+                # the local pushes (an event accepted by worker w is pushed to w's own subscriber by w itself) are not the
+                # notifier's: keep only pushes on the *other* worker
+                trace = [ln for ln in trace if not (ln["a"] == "Push" and ln["i"] in [s for ww, s in plan if ww == ln["w"]])]
+                trace.append({"a": "End"})
+                for w in (1, 2):
+                    inbox[w].put_nowait(None)
+                await settle(20)
+                for t in tasks + handlers:
+                    t.cancel()
+                await asyncio.gather(*tasks, *handlers, return_exceptions=True)
+                for w in (1, 2):
+                    if sts[w].notifier and sts[w].notifier._task:
+                        sts[w].notifier._task.cancel()
+                    await D.close_storage(sts[w])
+                return trace
+            finally:
+                asyncio.open_connection = orig_open
+                asyncio.sleep = orig_sleep
+
+    async def main():
+        return [await one(c) for c in chunkings]
+
+    return asyncio.run(main())
+
+
 def run(prop, tier, seed, **kw):
     from .. import pool
 
@@ -291,6 +440,25 @@ def run(prop, tier, seed, **kw):
                 what = "C20 %s: %s at line %d %s; behaviour=%s" % (name, b[0], b[1], ln, [list(s) for s in stimuli[k]])
                 out.violation(what, {"formula": b[0], "line": ln, "config": name},
                               lambda p, tr=tr, st=stimuli[k], b=verdicts[k]: _dump(p, name, st, tr, b))
+    # end to end: two storages sharing one SQLite file, real NotifyClients, real server loop, subscribers on both
+    rnd = random.Random(seed)
+    chunkings = [[32], [16, 16], [1, 31], [31, 1], [8, 8, 8, 8], [5, 27, 3, 29], [40, 24], [64]] + \
+        [[rnd.randint(1, 40) for _ in range(5)] for _ in range({"quick": 8, "thorough": 80}[tier])]
+    payloads = [(chunkings[k:k + 4], seed) for k in range(0, len(chunkings), 4)]
+    e2e = [tr for res in pool.map_in_workers("harness.checks.c20", "_e2e_worker", payloads, config={"run_notifier": True}) for tr in res]
+    defs = {"TD_Workers": {1, 2}, "TD_IdsOf": {1: ["a", "b"], 2: ["c"]}, "TD_K": 4}
+    verdicts, vstats = tracedata.validate("Notifier_Trace", defs, e2e, batch=50)
+    out.add_model(vstats)
+    for k, tr in enumerate(e2e):
+        out.cov["evaluations"] += 1
+        out.cov["traces_validated_against_impl"] += 1
+        distinct.add(("e2e", tuple(chunkings[k]), False))
+        if verdicts[k]:
+            b = verdicts[k][0]
+            what = "C20 end-to-end (two DBStorage workers on one SQLite file, chunk sizes %s): %s at line %d %s; trace %s" % (
+                chunkings[k], b[0], b[1], tr[b[1] - 1], tr)
+            out.violation(what, {"formula": b[0], "line": tr[b[1] - 1], "config": "e2e"}, None)
+    out.notes["end_to_end_runs"] = len(e2e)
     design.join(out)
     out.cov["distinct_nontrivial"] = len(distinct)
     out.cov["rule"] = ("behaviours of Notifier.tla from TLC -simulate (announce / deliver n symbols up or down / one peer drop; 3 "
